@@ -18,6 +18,7 @@ def util_size_paths(repo):
     c = repo.__dict__.setdefault('_c17', {})
     if 'util' not in c:
         mod, fn = repo.find(f'{UT}::Util.execute_xform_size')
+        q.expect_locals(mod, fn, ['xform', 'frame', 'w', 'h', 'width', 'height'])
         ev = Evaluator(repo, mod)
         c['util'] = (mod, fn, ev.run(fn.body))
     return c['util']
@@ -25,6 +26,7 @@ def util_size_paths(repo):
 
 def video_region(repo):
     mod, fn = repo.find(f'{VI}::VideoReader.thread_reader')
+    q.expect_locals(mod, fn, ['image', 'shape', 'width', 'height', 'aspect', 'maxsize', 'newsize', 'w', 'h'])
     cands = [n for n in walk_scope(fn) if isinstance(n, ast.If) and any(isinstance(c, ast.Call) and U(c.func) == 'cv2.resize' for c in ast.walk(n))]
     cands = [n for n in cands if not any(q.inside(n, m) for m in cands)]
     if len(cands) != 1:
@@ -221,6 +223,8 @@ def action_literals(fn, var_names=('action',)):
 def r3(rr, repo):
     mod, norm = repo.find(f'{UT}::Util.normalize_config')
     _, exe = repo.find(f'{UT}::Util.execute_xforms')
+    q.expect_locals(mod, norm, ['action', 'args'])
+    q.expect_locals(mod, exe, ['action', 'frame', 'xform'])
     acc = action_literals(norm)
     done = action_literals(exe)
     rr.floor('actions accepted by normalize_config', len(acc), 13, mod, norm)
@@ -249,6 +253,8 @@ def r3(rr, repo):
 @rule('C17.R4', 'operation table: flipx/flipy/flipboth -> cv2.flip codes 1/0/-1, rotcw/rotccw -> the two 90 degree constants, fmt* -> the accessor of that format; box colour reversed iff BGR, averaged iff GRAY')
 def r4(rr, repo):
     mod, exe = repo.find(f'{UT}::Util.execute_xforms')
+    q.expect_locals(mod, exe, ['action', 'frame', 'xform'])
+    q.expect_locals(mod, repo.find(f'{UT}::Util.execute_xform_box')[1], ['xform', 'frame', 'c', 'image'])
     loops = [n for n in walk_scope(exe) if isinstance(n, ast.For)]
     if len(loops) != 1:
         raise Unresolved(f'{UT}: execute_xforms: expected one loop over the xforms')
